@@ -442,7 +442,11 @@ func (fx *FX) inductionHypothesis(a *act, fn *ssa.Function, spec *FuncSpec, env 
 	bv := Val{T: "ih!" + spec.Induction.Var, S: cur.S, GT: cur.GT}
 	env2 := env.with(spec.Induction.Var, bv)
 	var reqs, enss []string
+	ivar := map[string]bool{spec.Induction.Var: true}
 	for _, r := range spec.Requires {
+		if !sxMentions(r.X, ivar) {
+			continue // holds already (assumed as a precondition), and does not change with the induction variable
+		}
 		reqs = append(reqs, fx.specTerm(r.X, env2, st, fx.entry, spec.Pkg))
 	}
 	for _, en := range spec.Ensures {
@@ -474,13 +478,16 @@ func (fx *FX) lemmaInstance(a *act, ul *UseLemma, env *SEnv, st *State) string {
 			}
 		}
 	}
-	lenv := &SEnv{vars: map[string]Val{}, qn: env.qn, pkg: lsp.Pkg, nowOld: env.nowOld}
+	lenv := &SEnv{vars: map[string]Val{}, qn: env.qn, depth: env.depth, pkg: lsp.Pkg, nowOld: env.nowOld}
 	var decls []string
+	quantified := map[string]bool{}
 	for i, p := range lfn.Params {
 		if ul.Args[i] == nil {
+			quantified[p.Name()] = true
 			*env.qn++
 			srt := e.SortOf(p.Type())
-			name := fmt.Sprintf("%s!l%d", p.Name(), *env.qn)
+			name := fmt.Sprintf("%s!l%d", p.Name(), lenv.depth)
+			lenv.depth++
 			lenv.vars[p.Name()] = Val{T: name, S: srt, GT: p.Type()}
 			decls = append(decls, fmt.Sprintf("(%s %s)", name, srt))
 			continue
@@ -493,17 +500,47 @@ func (fx *FX) lemmaInstance(a *act, ul *UseLemma, env *SEnv, st *State) string {
 		v.GT = p.Type()
 		lenv.vars[p.Name()] = v
 	}
-	var reqs, enss []string
+	// hypotheses that do not mention a quantified argument are evaluated outside the quantifier, at the caller's binder
+	// depth: they then are the very terms the caller has established, not alpha-variants the solver must re-derive
+	outer := &SEnv{vars: lenv.vars, qn: env.qn, depth: env.depth, pkg: lsp.Pkg, nowOld: env.nowOld}
+	var indep, reqs, enss []string
 	for _, r := range lsp.Requires {
-		reqs = append(reqs, fx.specTerm(r.X, lenv, st, fx.entry, lsp.Pkg))
+		if sxMentions(r.X, quantified) {
+			reqs = append(reqs, fx.specTerm(r.X, lenv, st, fx.entry, lsp.Pkg))
+		} else {
+			indep = append(indep, fx.specTerm(r.X, outer, st, fx.entry, lsp.Pkg))
+		}
 	}
 	for _, en := range lsp.Ensures {
 		enss = append(enss, fx.specTerm(en.X, lenv, st, fx.entry, lsp.Pkg))
 	}
 	body := Imp(And(reqs...), And(enss...))
 	fx.usedSpec[ul.Key] = true
-	if len(decls) == 0 {
-		return body
+	if len(decls) > 0 {
+		body = fmt.Sprintf("(forall (%s) %s)", strings.Join(decls, " "), body)
 	}
-	return fmt.Sprintf("(forall (%s) %s)", strings.Join(decls, " "), body)
+	return Imp(And(indep...), body)
+}
+
+// sxMentions reports whether a spec expression refers to one of the given identifiers.
+func sxMentions(x *SX, names map[string]bool) bool {
+	if x == nil {
+		return false
+	}
+	if x.K == "id" && names[x.Name] {
+		return true
+	}
+	for _, a := range x.A {
+		if sxMentions(a, names) {
+			return true
+		}
+	}
+	for _, g := range x.Trig {
+		for _, t := range g {
+			if sxMentions(t, names) {
+				return true
+			}
+		}
+	}
+	return false
 }
